@@ -10,6 +10,7 @@ CLAIMED={
  'C07':('exploration','continuity/reset oracle over reconnect histories for every reset-option combination, three stores'),
  'C08':('exploration','per-connection envelope monitor (wire recorded at write time, callbacks, close) under the adversarial workload with timers, cuts and Stop'),
  'C09':('exploration','session half only: in-flight corruption of live traffic in every session state; process survival, watchdog, recovered-panic probe and liveness probe. ParseMessage/ParseSettings/dictionary loading on arbitrary off-wire input are pure functions and are NOT reached'),
+ 'C12':('exploration','same byte stream under several read schedules to the real parser (raw and through bufio) and through an engine\'s readLoop behind simnet; metamorphic + model oracle'),
  'C20':('exploration','timing oracle on the real run loop with real timers on simulated time'),
 }
 extra=json.load(open('/verif/claimed.json')) if False else {}
